@@ -426,5 +426,31 @@ def run(ctx):
             if codes(new_units) != mres:
                 ctx.report('correspondence', f'units in the saved file {new_units!r}, model {"".join(map(chr, mres))!r}', case,
                            found_input=False)
+        # ---------------- (D) time axes in calendars python's datetime cannot express (360_day, noleap ...): the units cannot be
+        # rewritten for EMS; the save is refused, or the file it leaves has units of the EMS form - never a quiet success with
+        # units EMS cannot read
+        import re
+        for k, cal in enumerate(['360_day', 'noleap', 'all_leap', 'julian'] if not quick else [['360_day', 'noleap'][ctx.seed % 2], 'julian']):
+            g = gen.cf1d(rng, ny=2, nx=3).ds
+            g = g.assign_coords(time=xarray.DataArray(numpy.arange(3, dtype='f8'), dims=['record'], attrs={
+                'units': 'days since 1990-01-01', 'calendar': cal, 'standard_name': 'time'}))
+            g['w'] = xarray.DataArray(numpy.zeros((3, 2, 3)), dims=['record'] + list(g.ems.grid_dimensions[g.ems.default_grid_kind]))
+            src, dst = os.path.join(tmp, f'cal_{k}.nc'), os.path.join(tmp, f'cal_{k}_saved.nc')
+            case = {'calendar': cal, 'units': 'days since 1990-01-01'}
+            ctx.case(('calendar', cal), True)
+            ctx.count(f'calendar outside datetime:{cal}')
+            with warnings.catch_warnings():
+                warnings.simplefilter('ignore')
+                g.to_netcdf(src)
+                opened = emsarray.open_dataset(src)
+                r = attempt(lambda: opened.ems.to_netcdf(dst))
+                opened.close()
+            if r[0] != 'ok':
+                continue
+            with netCDF4.Dataset(dst) as nc:
+                got_units = str(nc['time'].getncattr('units'))
+            if not re.fullmatch(r'days since \d{4}-\d{2}-\d{2} \d{2}:\d{2}:\d{2} [+-]\d{2}:?\d{2}', got_units):
+                ctx.report('property', f'a time axis in the {cal} calendar was saved without an error and the file holds the units '
+                           f'{got_units!r}, which are not of the form EMS reads', case)
     finally:
         shutil.rmtree(tmp, ignore_errors=True)
